@@ -50,7 +50,7 @@ def src_files():
 
 # translator tie: which hand-written proof files sit on which generated file (compiled in this order)
 SRC_ORDER = ['GenPrim', 'GenWidthP', 'GenPrimP', 'GenDiv', 'GenDivP', 'GenLoopP', 'GenIterP', 'GenUint', 'GenUintP', 'GenMod', 'GenModP',
-             'GenShift', 'GenShiftP', 'GenMul', 'GenMulP', 'GenInt', 'GenIntP', 'GenDivLimb', 'GenDivLimbP', 'GenBits', 'GenBitsP', 'GenDivCt', 'GenDivCtP', 'GenMonty', 'GenMontyP', 'GenHex', 'GenHexP',
+             'GenShift', 'GenShiftP', 'GenMul', 'GenMulP', 'GenInt', 'GenIntP', 'GenDivLimb', 'GenDivLimbP', 'GenBits', 'GenBitsP', 'GenDivCt', 'GenDivCtP', 'GenMonty', 'GenMontyP', 'GenHex', 'GenHexP', 'GenConv', 'GenConvP',
              'GenSqrt', 'GenSqrtP', 'GenIntDiv', 'GenIntDivP', 'GenMulMod', 'GenMulModP', 'GenAmm', 'GenAmmP',
              'GenSafeGcd', 'GenSafeGcdP', 'GenSafeGcdJumpP', 'GenSafeGcdBitsP', 'GenWrap', 'GenWrapP', 'GenCmp', 'GenCmpP', 'GenIntCmp', 'GenIntCmpP']
 # source-derived leakage model of C01 (tools/rs2v_leak.py): Leak<G>.v is generated next to Gen<G>.v, Leak<G>P.v is hand-written
@@ -64,7 +64,7 @@ SRC_NEEDS = {'C02': _PRIM + ['GenDiv', 'GenDivP', 'GenLoopP', 'GenIterP', 'GenUi
              'C05': _PRIM + ['GenLoopP', 'GenIterP', 'GenUint', 'GenUintP', 'GenShift', 'GenShiftP', 'GenBits', 'GenBitsP'], 'C07': _UINT + ['GenMod', 'GenModP'],
              'C13': _UINT + ['GenInt', 'GenIntP'],
              'C08': _UINT + ['GenIterP', 'GenMod', 'GenModP', 'GenShift', 'GenMul', 'GenMulP', 'GenMonty', 'GenMontyP'],
-             'C16': ['GenHex', 'GenHexP']}
+             'C16': ['GenHex', 'GenHexP', 'GenConv', 'GenConvP']}
 SRC_NEEDS['C01'] = ['Gen' + g for g in _LEAK_GROUPS] + _LEAK
 _DIVCT = SRC_NEEDS['C02']
 SRC_NEEDS['C20'] = _DIVCT + ['GenInt', 'GenIntP', 'GenSqrt', 'GenSqrtP']
@@ -73,7 +73,7 @@ SRC_NEEDS['C07'] = _PRIM + ['GenDiv', 'GenDivP', 'GenLoopP', 'GenIterP', 'GenUin
 SRC_NEEDS['C08'] = SRC_NEEDS['C08'] + ['GenAmm', 'GenAmmP']
 SRC_NEEDS['C14'] = _DIVCT + ['GenInt', 'GenIntP', 'GenIntDiv', 'GenIntDivP']
 SRC_NEEDS['C10'] = _PRIM + ['GenLoopP', 'GenIterP', 'GenUint', 'GenUintP', 'GenSafeGcd', 'GenSafeGcdP', 'GenSafeGcdJumpP', 'GenSafeGcdBitsP']
-SRC_NEEDS['C12'] = _UINT + ['GenShift', 'GenWrap', 'GenWrapP']
+SRC_NEEDS['C12'] = _UINT + ['GenShift', 'GenHex', 'GenHexP', 'GenConv', 'GenConvP', 'GenWrap', 'GenWrapP']
 SRC_NEEDS['C06'] = _DIVCT + ['GenInt', 'GenIntP', 'GenIntDiv', 'GenIntDivP', 'GenCmp', 'GenCmpP', 'GenIntCmp', 'GenIntCmpP']
 
 def src_tie(pid):
